@@ -61,7 +61,7 @@ def gen_seedsum():
             f"the right place); {c('inconclusive-first')} made its check end INCONCLUSIVE (a harness object without a logger panicked in "
             f"the native replay - corrected, then caught); {c('missed-first')} were **missed at first** - each miss led to a strengthening "
             f"of the check or of the engine's models (never to a loosening), after which it is caught"
-            + (f"; {c('missed')} is **not caught**: it lies in code the check of its property declares outside its claim (see its row)" if c('missed') else "")
+            + (f"; {c('missed')} is **not caught** (see its row for why)" if c('missed') else "")
             + ":")
 def gen_seeds():
     out=["| seed | breaks | the change | needs, to show up | result |","|---|---|---|---|---|"]
